@@ -6,7 +6,8 @@ import json, os, subprocess, sys, tempfile, shutil
 from concurrent.futures import ThreadPoolExecutor
 
 ROOT = '/verif/seeded'
-EXTRA = {'C15': ['C09'], 'C02': ['C11'], 'C06': []}     # sibling checks worth trying when the own check is silent
+EXTRA = {'C15': ['C09', 'C01'], 'C02': ['C10', 'C09', 'C11'], 'C03': ['C07', 'C06'], 'C10': ['C11', 'C06', 'C03'], 'C05': ['C01', 'C15'],
+         'C01': ['C15']}     # sibling checks worth trying when the own check is silent
 
 
 def run(name):
